@@ -2,7 +2,10 @@
 // `utf8_lossy(utf8(s)) == s` is an axiom (C19 round trip holds relative to it).
 pub uninterp spec fn utf8(s: Seq<char>) -> Seq<u8>;
 pub uninterp spec fn utf8_lossy(b: Seq<u8>) -> Seq<char>;
-pub uninterp spec fn cp437(b: Seq<u8>) -> Seq<char>;     // per-byte map through the CP437 table (Kani: cp437 group)
+// the CP437 table: one Unicode scalar per byte (uninterpreted here; `to_char` is decided against CPython's codec table by
+// Kani, group cp437, all 256 bytes); a byte string decodes byte by byte (`Vec<u8>::from_cp437` is proved to do that in unit U14)
+pub uninterp spec fn cp437_char(b: u8) -> char;
+pub open spec fn cp437(b: Seq<u8>) -> Seq<char> { Seq::new(b.len(), |i: int| cp437_char(b[i])) }
 pub broadcast axiom fn axiom_utf8_lossy_inverse(s: Seq<char>)
     ensures #[trigger] utf8_lossy(utf8(s)) == s;
 pub assume_specification [String::as_bytes] (s: &String) -> (r: &[u8])
@@ -38,9 +41,15 @@ pub assume_specification<T, U, F: FnOnce(T) -> U> [Option::<T>::map_or] (o: Opti
 pub broadcast axiom fn axiom_utf8_ascii(s: Seq<char>)
     requires forall|i: int| 0 <= i < s.len() ==> (s[i] as u32) < 128,
     ensures (#[trigger] utf8(s)).len() == s.len(), forall|i: int| 0 <= i < s.len() ==> utf8(s)[i] == s[i] as u8;
-pub broadcast axiom fn axiom_cp437_ascii(b: Seq<u8>)
+pub axiom fn axiom_cp437_char_ascii(b: u8)
+    requires b < 0x80,
+    ensures cp437_char(b) == b as char;
+pub broadcast proof fn axiom_cp437_ascii(b: Seq<u8>)
     requires forall|i: int| 0 <= i < b.len() ==> b[i] < 0x80,
-    ensures (#[trigger] cp437(b)).len() == b.len(), forall|i: int| 0 <= i < b.len() ==> cp437(b)[i] == b[i] as char;
+    ensures (#[trigger] cp437(b)).len() == b.len(), forall|i: int| 0 <= i < b.len() ==> cp437(b)[i] == b[i] as char
+{
+    assert forall|i: int| 0 <= i < b.len() implies cp437(b)[i] == b[i] as char by { axiom_cp437_char_ascii(b[i]); }
+}
 // TRUSTED (std): strict UTF-8 conversion and the byte views of strings - present so that code which swaps the lossy decoder
 // for these is decided rather than rejected as unsupported
 #[verifier::external_type_specification]
